@@ -707,6 +707,23 @@ def _r9(repo: Repo, ctx) -> None:
     if not dec or not reg:
         raise AnalysisError('C07.R9: rewrite decision / registration of '
                             'new_set not found')
+    # (c) a rewrite is never compiled (and cached for the whole query) while
+    #     rewrites are suppressed for a policy body
+    F = Facts({'ctx.suppress_rewrites': True, 'ignore_rewrites': False,
+               'policies.should_ignore_rewrite(stype, ctx=ctx)': False,
+               'rw_key not in ctx.env.type_rewrites': True,
+               'isinstance(stype, s_objtypes.ObjectType)': True,
+               'ctx.env.options.apply_query_rewrites': True}, ns.node)
+    from ..absint import open_nodes as _on
+    opened = _on(g, F)
+    ctx.ob('C07.R9', 'new_set:no-registration-inside-policy-body',
+           not (set(reg) & opened),
+           'inside a policy body (ctx.suppress_rewrites set) a type whose '
+           'rewrites are not ignored there (std types) gets its rewrite '
+           'compiled and cached under (type, skip_subtypes): the sets of its '
+           'children are built with rewrites ignored, and the query proper '
+           'reuses that rewrite, reading the children unfiltered', ns.loc,
+           sample='try_type_rewrite unreachable when suppress_rewrites')
     ok = all(g.always_before(r, dec) for r in reg)
     ctx.ob('C07.R9', 'new_set:ignore-decided-before-registration', ok,
            'new_set registers the type rewrite before deciding whether '
